@@ -434,6 +434,13 @@ func c01CoalescedCase(dir string, size int, order string) (obs, sig, msg string)
 // default type is message), with ids, retry fields, comment lines, CRLF line ends.  Connect, a ping and
 // two concurrent tool calls all complete, each with its own answer.
 func c01SSESpellingCase(spelling string) (obs, sig, msg string) {
+	return c01SSECase(spelling, false)
+}
+
+// lastWords: the server answers the ping and ends the event stream right behind the answer (it shuts
+// down, a proxy recycles the connection): the answer arrived in full before the end of the stream, so the
+// ping completes with it; the two tool calls are not made.
+func c01SSECase(spelling string, lastWords bool) (obs, sig, msg string) {
 	fail := func(s, format string, a ...any) (string, string, string) {
 		return "", "c01 sse-spelling " + s, fmt.Sprintf(format, a...) + " [message events spelled: " + spelling + "]"
 	}
@@ -493,7 +500,12 @@ func c01SSESpellingCase(spelling string) (obs, sig, msg string) {
 			answer = `{"jsonrpc":"2.0","id":` + string(m.ID) + `,"result":{"content":[{"type":"text","text":"echo ` + m.Params.Arguments.Tag + `"}]}}`
 		}
 		if answer != "" {
-			go io.WriteString(pw, event(answer))
+			go func() {
+				io.WriteString(pw, event(answer))
+				if lastWords && m.Method == "ping" {
+					pw.Close()
+				}
+			}()
 		}
 		return &http.Response{StatusCode: 202, Status: "202 Accepted", Header: h, Body: io.NopCloser(strings.NewReader("")), Proto: "HTTP/1.1", ProtoMajor: 1, ProtoMinor: 1}, nil
 	}}
@@ -532,7 +544,7 @@ func c01SSESpellingCase(spelling string) (obs, sig, msg string) {
 		}
 		done[0] = true
 	}()
-	for i := 1; i <= 2; i++ {
+	for i := 1; i <= 2 && !lastWords; i++ {
 		go func() {
 			r, err := cs.CallTool(ctx, &CallToolParams{Name: "echo", Arguments: map[string]any{"tag": fmt.Sprint("t", i)}})
 			switch {
@@ -547,6 +559,12 @@ func c01SSESpellingCase(spelling string) (obs, sig, msg string) {
 	time.Sleep(time.Minute)
 	synctest.Wait()
 	for i, want := range []string{"pong", "echo t1", "echo t2"} {
+		if lastWords && i > 0 {
+			break
+		}
+		if lastWords && done[i] && results[i] != want {
+			return fail("response-before-end-of-stream-lost", "the server answered the ping and then ended the event stream; the ping completed with %q", results[i])
+		}
 		switch {
 		case !done[i]:
 			return fail("call-never-completes", "call %d is still blocked a minute after the server answered it on the event stream; the session is up", i)
